@@ -75,6 +75,29 @@ M = [
  ("C20-no-user-guard", "C20", "pybads/bads/options.py", "            if key not in self.get(\"useroptions\") and key != \"useroptions\":", "            if key != \"useroptions\" and not (key in self.get(\"useroptions\") and options_path.endswith(\"basic_bads_options.ini\")):"),
  ("C20-skip-advanced-validate", "C20", "pybads/bads/bads.py", "        self.options.validate_option_names([basic_path, advanced_path])", "        self.options.validate_option_names([basic_path, advanced_path]) if options is None else None"),
  ("C20-alias-user-dict", "C20", "pybads/bads/bads.py", "        self.non_box_cons = non_box_cons\n", "        self.non_box_cons = non_box_cons\n        if options is not None:\n            options.setdefault(\"display\", \"iter\")\n"),
+
+ ("C01-lbsearch-nudge-sign", "C01", "pybads/bads/bads.py", "            lb_search[lb_search < lb] + self.optim_state[\"search_mesh_size\"]", "            lb_search[lb_search < lb] - self.optim_state[\"search_mesh_size\"]"),
+ ("C01-logger-passes-u", "C01", "pybads/function_logger/function_logger.py", "            fun_res = self.fun(x_orig)\n", "            fun_res = self.fun(x_orig if self.func_count % 7 else x)\n"),
+ ("C03-maxiter-gt", "C03", "pybads/bads/bads.py", "            if poll_iteration >= self.options[\"max_iter\"] - 1:", "            if poll_iteration > self.options[\"max_iter\"] - 1:"),
+ ("C03-tolmesh-le", "C03", "pybads/bads/bads.py", "            if self.optim_state[\"mesh_size\"] < self.optim_state[\"tol_mesh\"]:", "            if self.optim_state[\"mesh_size\"] <= 2 * self.optim_state[\"tol_mesh\"]:"),
+ ("C03-budget-gt", "C03", "pybads/bads/bads.py", "                self.function_logger.func_count\n                >= self.options[\"max_fun_evals\"]\n            ):\n                is_finished = True", "                self.function_logger.func_count\n                > self.options[\"max_fun_evals\"]\n            ):\n                is_finished = True"),
+ ("C05-reserve-ignores-count", "C05", "pybads/bads/bads.py", "                self.options[\"max_fun_evals\"]\n                - self.function_logger.func_count,\n            )", "                self.options[\"max_fun_evals\"],\n            )"),
+ ("C05-sem-var", "C05", "pybads/bads/bads.py", "self.fsd = (np.std(yval_vec) / np.sqrt(yval_vec.size)).item()", "self.fsd = (np.var(yval_vec) / np.sqrt(yval_vec.size)).item()"),
+ ("C12-xmaxidx-stuck", "C12", "pybads/function_logger/function_logger.py", "            self.X_max_idx = np.minimum(self.X_max_idx + 1, self.X.shape[0])", "            self.X_max_idx = np.minimum(self.X_max_idx + 1, self.cache_size - 1)"),
+ ("C12-yorig-merged", "C12", "pybads/function_logger/function_logger.py", "                    self.S[idx] = 1 / np.sqrt(tau_n + tau_1)", "                    self.S[idx] = 1 / np.sqrt(tau_n + tau_1)\n                    self.Y_orig[idx] = self.Y[idx]"),
+ ("C13-accel-ge", "C13", "pybads/bads/bads.py", "                and iter > self.options[\"accelerate_mesh_steps\"]", "                and iter >= self.options[\"accelerate_mesh_steps\"] - 1"),
+ ("C13-quarter-when-improving", "C13", "pybads/bads/bads.py", "                    self.f_q_historic_improvement < self.options[\"tol_fun\"]\n                ):  # or", "                    self.f_q_historic_improvement > self.options[\"tol_fun\"]\n                ):  # or"),
+ ("C14-pollcount-le", "C14", "pybads/bads/bads.py", "            and poll_count < self.D * 2\n        ):", "            and poll_count <= self.D * 2\n        ):"),
+ ("C15-radius-not-squared", "C15", "pybads/bads/gaussian_process_train.py", "np.sum(dist <= radius**2))", "np.sum(dist <= radius))"),
+ ("C15-ntrain-min-ignored", "C15", "pybads/bads/gaussian_process_train.py", "            options[\"n_train_min\"],\n            options[\"n_train_max\"] - options[\"buffer_ntrain\"],", "            1,\n            options[\"n_train_max\"] - options[\"buffer_ntrain\"],"),
+ ("C15-fevals-sd-not-squared", "C15", "pybads/bads/gaussian_process_train.py", "        s2 = function_logger.S[function_logger.X_flag] ** 2", "        s2 = function_logger.S[function_logger.X_flag]"),
+ ("C18-hedge-choice-le", "C18", "pybads/search/search_hedge.py", "        self.prob = self.prob / np.sum(\n            np.exp(self.beta * (self.g - np.max(self.g)))\n        )", "        self.prob = self.prob / np.sum(\n            np.exp(self.beta * (self.g - np.min(self.g)))\n        )"),
+ ("C18-es-keeps-worst", "C18", "pybads/search/es_search.py", "        return us[0], z[0]\n", "        return us[-1], z[-1]\n"),
+ ("C19-record-x-from-ubest-stale", "C19", "pybads/bads/bads.py", "                    self.var_transf.inverse_transf(self.u.flatten()),\n                    poll_iteration,", "                    self.var_transf.inverse_transf(self.optim_state[\"u\"].flatten()),\n                    poll_iteration,"),
+ ("C19-funccount-record-minus1", "C19", "pybads/bads/bads.py", "                    \"func_count\",\n                    self.function_logger.func_count,\n                    poll_iteration,", "                    \"func_count\",\n                    self.function_logger.func_count + 1,\n                    poll_iteration,"),
+ ("C20-validate-basic-only", "C20", "pybads/bads/options.py", "        for options_path in options_paths:\n            file_option_names.update(", "        for options_path in options_paths[-1:]:\n            file_option_names.update("),
+ ("C16-update-fallback-removed", "C16", "pybads/bads/gaussian_process_train.py", "    try:\n        gp.update(hyp=hyp_gp)\n    except np.linalg.LinAlgError:", "    try:\n        gp.update(hyp=hyp_gp)\n    except ZeroDivisionError:"),
+ ("C02-final-noise-no-cons", "C02", "pybads/bads/bads.py", "            self.u = self.iteration_history.get(\"u\")[min_q_beta_idx]\n            self.u_best = self.u.copy()", "            self.u = self.iteration_history.get(\"u\")[min_q_beta_idx] + (self.mesh_size if self.non_box_cons is not None else 0.0)\n            self.u_best = self.u.copy()"),
 ]
 
 
